@@ -1,9 +1,12 @@
 package checks
 
 import (
+	"bytes"
 	"encoding/json"
 	"fmt"
 	"os"
+	"os/exec"
+	"sort"
 	"strings"
 	"sync/atomic"
 
@@ -180,6 +183,8 @@ func ioErrorOnce(env *core.Env, a ioErrReplay, pre core.Store, root, scratch str
 	}
 	after := core.Observe(core.Spawn{Bin: env.Prod}.Run, root)
 	switch a.Expect {
+	case "unchanged-whatever":
+		return after.Fail != "" || after.Raw() != before.Raw()
 	case "fail-unchanged":
 		return t.Exit != 0 && (after.Fail != "" || after.Norm(after.TitleMap()) != before.Norm(before.TitleMap()))
 	default: // acknowledged => in effect
@@ -201,4 +206,185 @@ func replayIOError(env *core.Env, raw json.RawMessage) bool {
 	root, scratch := crashWorkdir(env.W0())
 	fmt.Printf("  store + `%s` with strace -e inject=%s (call in the recorded run: %s)\n", a.Req.Shell(), a.Inject, a.Call)
 	return confirmIOError(env, a, root, scratch)
+}
+
+// shortWritePhase runs each command under a file size limit (RLIMIT_FSIZE via prlimit) chosen so that the write that
+// grows the log - or, for the rewriting commands, the temp file - is cut short after k bytes and the following write
+// fails: what a disk that fills up in the middle of a write does. For every k of a grid (every line boundary of the
+// batch and the bytes next to it, plus evenly spaced offsets; thorough: every byte) the command either still succeeds
+// (the limit did not bite) or exits non-zero - and then a reader must see exactly the pre-state.
+func shortWritePhase(env *core.Env, check string, pre core.Store, cmds []crashCmd) map[string]interface{} {
+	if _, err := exec.LookPath("prlimit"); err != nil {
+		return map[string]interface{}{"skipped": "prlimit not installed"}
+	}
+	var runs, failed, failedUnchanged, succeeded int64
+	w0 := env.W0()
+	pre.Materialize(w0.Proj)
+	preObs := core.ObserveW(w0, w0.Proj)
+	preNorm := preObs.Norm(preObs.TitleMap())
+	preSize := int64(len(pre.Log()))
+	type job struct {
+		c     crashCmd
+		limit int64
+	}
+	var jobs []job
+	for _, c := range cmds {
+		// reference run: how much does the log grow, where are the line boundaries of what is appended
+		pre.Materialize(w0.Proj)
+		r := c.Req
+		r.Cwd = w0.Proj
+		r.RandBase = -1
+		ref := w0.Spawn(r)
+		if ref.Exit != 0 {
+			env.HarnessError("short-write phase: reference run of %s fails: %s", c.Req.Shell(), ref.Err)
+		}
+		after, _ := core.Snapshot(w0.Proj)
+		post := after.Log()
+		set := map[int64]bool{}
+		add := func(n int64) {
+			if n > 0 {
+				set[n] = true
+			}
+		}
+		if int64(len(post)) > preSize && bytes.HasPrefix(post, pre.Log()) { // append path: limits between the old and the new size
+			batch := post[preSize:]
+			L := int64(len(batch))
+			for i, b := range batch {
+				if b == '\n' && int64(i)+1 < L {
+					add(preSize + int64(i))
+					add(preSize + int64(i) + 1)
+					add(preSize + int64(i) + 2)
+				}
+			}
+			step := L / 8
+			if env.Thorough() || step < 1 {
+				step = 1
+			}
+			for k := int64(1); k < L; k += step {
+				add(preSize + k)
+			}
+			add(preSize + L - 1)
+		}
+		// rewrite path (and any command that writes a new file from offset 0): limits below the size of the new log
+		T := int64(len(post))
+		for _, n := range []int64{1, T / 4, T / 2, preSize - 1, T - 1} {
+			if n < preSize || !bytes.HasPrefix(post, pre.Log()) {
+				add(n)
+			}
+		}
+		for n := range set {
+			jobs = append(jobs, job{c, n})
+		}
+	}
+	sort.Slice(jobs, func(i, j int) bool {
+		if jobs[i].c.Name != jobs[j].c.Name {
+			return jobs[i].c.Name < jobs[j].c.Name
+		}
+		return jobs[i].limit < jobs[j].limit
+	})
+	env.Parallel(len(jobs), func(w *core.Worker, i int) {
+		if !env.TimeLeft() {
+			return
+		}
+		j := jobs[i]
+		once := func() (core.Res, core.Obs) {
+			pre.Materialize(w.Proj)
+			r := j.c.Req
+			r.Cwd = w.Proj
+			r.RandBase = -1
+			r.FsizeLimit = j.limit
+			res := w.Spawn(r)
+			return res, core.ObserveW(w, w.Proj)
+		}
+		res, obs := once()
+		atomic.AddInt64(&runs, 1)
+		if res.Exit == 0 {
+			atomic.AddInt64(&succeeded, 1)
+			return
+		}
+		atomic.AddInt64(&failed, 1)
+		if obs.Fail == "" && obs.Norm(obs.TitleMap()) == preNorm {
+			atomic.AddInt64(&failedUnchanged, 1)
+			return
+		}
+		sig := fmt.Sprintf("%s kind=failed-on-a-short-write-but-changed-the-store %s", check, familyOf(j.c.Req))
+		if env.ViolationSeen(sig) {
+			return
+		}
+		for k := 0; k < 4; k++ {
+			r2, o2 := once()
+			if r2.Exit == 0 || (o2.Fail == "" && o2.Norm(o2.TitleMap()) == preNorm) {
+				unconfirmed.Add(1)
+				return
+			}
+		}
+		rel := j.c.Req
+		rel.Cwd = "."
+		rel.RandBase = -1
+		rel.FsizeLimit = j.limit
+		tr := mkTrace(pre, "file size limit "+fmt.Sprint(j.limit), nil)
+		tr.Steps = []core.Req{rel}
+		tr.Shell = []string{fmt.Sprintf("prlimit --fsize=%d -- %s", j.limit, j.c.Req.Shell())}
+		tr.FailIf = []Assert{{Kind: "exit_nonzero", Step: 1}, {Kind: "obs_differs", Step: 1, Other: 0}}
+		env.Violation(sig, fmt.Sprintf("`%s` under a file size limit of %d bytes (log is %d bytes) exits %d (%s), but the store is not what it was before (reads: %q): %s",
+			j.c.Req.Shell(), j.limit, preSize, res.Exit, clipS(string(res.Err), 100), obs.Fail, firstDiff(preNorm, obs.Norm(obs.TitleMap()))), tr)
+	})
+	return map[string]interface{}{"runs": runs, "command_failed": failed, "failed_and_unchanged": failedUnchanged, "limit_did_not_bite": succeeded,
+		"rule": "each command under RLIMIT_FSIZE = every line boundary of its append (+-1) and 8 evenly spaced offsets inside it (thorough: every byte), and 5 limits below the size of a rewritten log; asserted: exit non-zero => observable state equals the pre-state"}
+}
+
+// unchangedWhateverPhase: for a command that must never change what readers see (compact), EIO is injected into every
+// system call on a store file - including each read(2) of the log - one at a time; whatever the command then answers,
+// a reader must see exactly the pre-state.
+func unchangedWhateverPhase(env *core.Env, check string, pres []core.Store, cmd crashCmd) map[string]interface{} {
+	var injected, exit0, exitN int64
+	byCall := newCounter()
+	env.Parallel(len(pres), func(w *core.Worker, i int) {
+		pre := pres[i]
+		root, scratch := crashWorkdir(w)
+		pre.Materialize(root)
+		before := core.ObserveW(w, root)
+		if before.Fail != "" {
+			return
+		}
+		pre.Materialize(root)
+		ref, err := crash.Run(env.Prod, root, cmd.Req, "", scratch)
+		if err != nil {
+			env.HarnessError("strace pass 0: %v", err)
+		}
+		for _, call := range ref.Calls {
+			if call.Ret < 0 || !env.TimeLeft() {
+				continue
+			}
+			inject := fmt.Sprintf("%s:error=EIO:when=%d", call.Name, call.NthOfName)
+			pre.Materialize(root)
+			t, err := crash.Run(env.Prod, root, cmd.Req, inject, scratch)
+			if err != nil {
+				env.HarnessError("strace: %v", err)
+			}
+			atomic.AddInt64(&injected, 1)
+			byCall.inc(call.Name)
+			if t.Exit == 0 {
+				atomic.AddInt64(&exit0, 1)
+			} else {
+				atomic.AddInt64(&exitN, 1)
+			}
+			obs := core.ObserveW(w, root)
+			if obs.Fail == "" && obs.Raw() == before.Raw() {
+				continue
+			}
+			sig := fmt.Sprintf("%s kind=%s-under-io-error-changed-the-store call=%s", check, cmd.Name, call.Name)
+			if env.ViolationSeen(sig) {
+				continue
+			}
+			art := ioErrReplay{Kind: "io-error", Expect: "unchanged-whatever", Store: pre, Req: cmd.Req, Call: call.String(), Inject: inject}
+			if !confirmIOError(env, art, root, scratch) {
+				unconfirmed.Add(1)
+				continue
+			}
+			env.Violation(sig, fmt.Sprintf("`%s` with EIO injected into %s exits %d (%s); afterwards the store does not read as before (reads: %q): %s", cmd.Req.Shell(), call, t.Exit, clipS(string(t.Err), 100), obs.Fail, firstDiff(before.Raw(), obs.Raw())), art)
+		}
+	})
+	return map[string]interface{}{"errors_injected": injected, "command_exited_0": exit0, "command_failed": exitN, "injected_by_call": byCall.snapshot(), "pre_states": len(pres),
+		"rule": "EIO injected (strace) into every system call on a store file, including every read(2) of the log, one at a time; asserted whatever the exit status: the observable state is byte-identical to the pre-state"}
 }
